@@ -175,6 +175,7 @@ class StateConstructor(WithAtol):
     name = "State.__init__"
     targets = (ST + ":State.__init__",)
     frame = False      # constructors adopt the arrays handed to them
+    may_raise = True
 
     def configs(self, tier):
         return [("1q", None)] + ([("1qt", None)] if tier == "thorough" else [])
